@@ -31,7 +31,7 @@ func FieldName(t types.Type, i int) string {
 func Path(v ssa.Value) string {
 	switch x := v.(type) {
 	case *ssa.Parameter:
-		if e, ok := paramAsField[x]; ok {
+		if e, ok := paramAsField[x]; ok && e.owner != nil {
 			if i := strings.Index(e.key, "."); i >= 0 {
 				return e.owner.Name() + e.key[i:]
 			}
